@@ -547,6 +547,10 @@ fn eval_long_reframing(c: &crate::scenario::ValidCase) -> Outcome {
     o
 }
 
+fn s_scenarios(_t: Tier) -> BoxedStrategy<crate::scenario::ValidCase> {
+    crate::scenario::valid_case_strategy(12, 12).boxed()
+}
+
 pub fn def() -> PropertyDef {
     PropertyDef {
         fuzz_targets: &["c14_annexb"],
@@ -567,6 +571,7 @@ pub fn def() -> PropertyDef {
             Box::new(PSub { name: "random_bytes", quick: 60000, thorough: 600000, strat: random_strategy, eval: eval_random }),
             Box::new(ESub { name: "adts_exhaustive", run: run_adts, replay: replay_adts }),
             Box::new(LSub { name: "long_recordings", cases: crate::scenario::long_cases_all, eval: eval_long_reframing, note: crate::scenario::LONG_NOTE }),
+            Box::new(PSub { name: "muxer_reframing", quick: 10000, thorough: 300000, strat: s_scenarios, eval: eval_long_reframing }),
             Box::new(LSub {
                 name: "large_inputs",
                 cases: large_cases,
